@@ -2,6 +2,9 @@ use crate::macros::{impl_conversions, impl_handler};
 use crate::resolvers::{AllArguments, Argument};
 use crate::{ExecutionError, Expression, FunctionContext, ResolveResult, Value};
 use cel_parser::ast::Expr;
+#[cfg(kani)]
+use crate::verif_map::HashMap;
+#[cfg(not(kani))]
 use std::collections::HashMap;
 use std::sync::Arc;
 
